@@ -56,11 +56,6 @@ var knownProbes = []knownProbe{
 		Check: func(o Obs) (bool, string) {
 			return !traceHas(o, "cb:probe(B:a,b)"), fmt.Sprintf("a quoted argument containing a comma reached the callback as %v", o.Trace)
 		}},
-	{ID: "D28-coalesce-modifiers", Props: []string{"C17"},
-		Prog: "obj.Id = jso.{nokey|s}|upper()\n", Doc: `{"s":"abc"}`,
-		Check: func(o Obs) (bool, string) {
-			return o.Fields[0][0] != "S:ABC", "modifiers after a coalesce source are dropped: Id = " + o.Fields[0][0]
-		}},
 	{ID: "D30-ctx-getter", Props: []string{"C19"},
 		Prog: "ctx.x = atoi(jso.n)\nprobe(x)\n", Doc: `{"n":"12"}`,
 		Check: func(o Obs) (bool, string) {
@@ -113,8 +108,36 @@ func runKnownProbes(prop string, sum *Summary) {
 			sum.Known = append(sum.Known, KnownHit{ID: "D32-literal-keyword", What: "a literal containing `for ` makes the line a loop header: Parse gives " + o.Class + " " + o.Err})
 		}
 	case "C11":
-		// D26: default(x) with a Go-typed argument allocates
+		// D44: a negative JSON number into an unsigned field allocates inside strconv
 		registerUserFuncs()
+		if tree, err := decoder.Parse([]byte("ts.U64 = jso.n\nobj.Ustate = jso.n\n")); err == nil {
+			ctx := decoder.NewCtx()
+			e := newEnv()
+			vec := jsonvector.NewVector()
+			run := func() {
+				ctx.Reset()
+				ctx.Set("obj", e.obj, testobj_ins.TestObjectInspector{})
+				ctx.Set("ts", e.ts, testobj_ins.TestStructInspector{})
+				vec.Reset()
+				_ = vec.Parse([]byte(`{"n":-129}`))
+				ctx.SetVector("jso", vec)
+				_ = decoder.DecodeRuleset(tree.Ruleset(), ctx)
+			}
+			for k := 0; k < 200; k++ {
+				run()
+			}
+			var ms runtime.MemStats
+			runtime.ReadMemStats(&ms)
+			b := ms.Mallocs
+			for k := 0; k < 1000; k++ {
+				run()
+			}
+			runtime.ReadMemStats(&ms)
+			if d := ms.Mallocs - b; d >= 500 {
+				sum.Known = append(sum.Known, KnownHit{ID: "D44-failing-number-conversion", What: fmt.Sprintf("`ts.U64 = jso.n` with n = -129 allocated %d objects in 1000 steady-state repetitions although Decode returns nil (strconv.ParseUint's error value inside vector.Node.Uint)", d)})
+			}
+		}
+		// D26: default(x) with a Go-typed argument allocates
 		tree, err := decoder.Parse([]byte("obj.Status = jso.missing|default(ivar)\n"))
 		if err == nil {
 			ctx := decoder.NewCtx()
